@@ -49,6 +49,14 @@ theorem Inv_ctrl_idle_del {s s' : State} {rest : List Cmd} {r : Rule} (hi : Inv 
   | none => inv_facts0 hi; inv_auto
   | some t => inv_facts hi t hc; cases hpc : t.pc <;> inv_auto
 
+theorem Inv_ctrl_idle_clear {s s' : State} {rest : List Cmd} (hi : Inv s) (hcpc : s.cpc = .idle)
+    (htd : s.todo = .clear :: rest) (h : controllerStep s = some s') : Inv s' := by
+  simp only [controllerStep, hcpc, htd] at h
+  cases h
+  cases hc : s.cur with
+  | none => inv_facts0 hi; inv_auto
+  | some t => inv_facts hi t hc; cases hpc : t.pc <;> inv_auto
+
 theorem Inv_ctrl_idle_recv {s s' : State} {rest : List Cmd} (hi : Inv s) (hcpc : s.cpc = .idle)
     (htd : s.todo = .recv :: rest) (h : controllerStep s = some s') : Inv s' := by
   simp only [controllerStep, hcpc, htd] at h
@@ -77,6 +85,7 @@ theorem Inv_ctrl_idle {s s' : State} (hi : Inv s) (hcpc : s.cpc = .idle) (h : co
     | cont => exact Inv_ctrl_idle_cont hi hcpc htd h
     | add r => exact Inv_ctrl_idle_add hi hcpc htd h
     | del r => exact Inv_ctrl_idle_del hi hcpc htd h
+    | clear => exact Inv_ctrl_idle_clear hi hcpc htd h
     | recv => exact Inv_ctrl_idle_recv hi hcpc htd h
 
 theorem Inv_ctrl_runLoadDone {s s' : State} (hi : Inv s) (hcpc : s.cpc = .runLoadDone)
